@@ -55,7 +55,7 @@ static bool g_mt = false;                        // multi-threaded stress mode: 
 static std::atomic<long> g_mt_dtor(0), g_mt_recycle(0);
 static std::ostringstream * g_ev = NULL;
 
-static int id_of(const Item * it)
+static int id_of(const Item * it)   // also answers for destroyed objects whose address has not been reused
 {
    if (it == NULL) return -1;
    std::map<const Item *, int>::const_iterator i = g_addr2id.find(it);
@@ -66,19 +66,18 @@ static void on_dtor(const Item * it)
 {
    if (g_mt) {g_mt_dtor++; return;}
    const int id = id_of(it);
-   if (id < 0) return;   // the static default object, or not registered
+   if ((id < 0)||(g_objs[id].dead)||(g_objs[id].addr != it)) return;   // the static default object, or not registered
    Info & inf = g_objs[id];
    if (inf.pooled) {if (g_ev) (*g_ev) << "x" << id << " "; g_slab2sid.erase((const void *) it);}
               else {if (g_ev) (*g_ev) << "D" << id << " "; inf.deaths++;}
-   inf.dead = true;
-   g_addr2id.erase(it);
+   inf.dead = true;   // the address stays in g_addr2id (a dangling non-counting reference still prints this id) until it is reused
 }
 
 static void on_assign(const Item * it)
 {
    if (g_mt) {g_mt_recycle++; return;}
    const int id = id_of(it);
-   if (id < 0) return;
+   if ((id < 0)||(g_objs[id].dead)) return;
    if (g_ev) (*g_ev) << "R" << id << " ";
    g_objs[id].deaths++;
 }
@@ -205,28 +204,33 @@ static Loc parse_loc(const std::string & s)
    return l;
 }
 
-// the ideal reference graph (the property oracle's own state): slots hold object ids or -1
+// the ideal reference graph (the property oracle's own state): a slot holds an object id (or -1) and the
+// "counting" bit; an object exists from its creation until the last counting reference to it is dropped
+struct IRef {int id; bool c; IRef() : id(-1), c(false) {} IRef(int i, bool cc) : id(i), c(cc) {}};
 struct Ideal
 {
-   std::vector<int> stk;
-   std::map<int, std::vector<int> > mem;   // live objects only
+   std::vector<IRef> stk;
+   std::map<int, std::vector<IRef> > mem;   // existing objects only
    std::map<int, int> val;
+   std::set<int> orphans;                   // count went to zero through a stop-counting conversion: by contract NOT released
    int count(int id) const
    {
       int c = 0;
-      for (size_t i=0; i<stk.size(); i++) if (stk[i] == id) c++;
-      for (std::map<int, std::vector<int> >::const_iterator it = mem.begin(); it != mem.end(); ++it)
-         for (size_t j=0; j<it->second.size(); j++) if (it->second[j] == id) c++;
+      for (size_t i=0; i<stk.size(); i++) if ((stk[i].id == id)&&(stk[i].c)) c++;
+      for (std::map<int, std::vector<IRef> >::const_iterator it = mem.begin(); it != mem.end(); ++it)
+         for (size_t j=0; j<it->second.size(); j++) if ((it->second[j].id == id)&&(it->second[j].c)) c++;
       return c;
    }
-   void collect(std::set<int> & released)   // objects nobody references are gone, and so are their references
+   void collect()   // objects no counting reference points to are gone, and so are the references they held
    {
       bool again = true;
       while(again)
       {
          again = false;
-         for (std::map<int, std::vector<int> >::iterator it = mem.begin(); it != mem.end(); ++it)
-            if (count(it->first) == 0) {released.insert(it->first); val.erase(it->first); mem.erase(it); again = true; break;}
+         for (std::set<int>::iterator o = orphans.begin(); o != orphans.end(); ++o) if (count(*o) > 0) {orphans.erase(o); again = true; break;}
+         if (again) continue;
+         for (std::map<int, std::vector<IRef> >::iterator it = mem.begin(); it != mem.end(); ++it)
+            if ((count(it->first) == 0)&&(orphans.count(it->first) == 0)) {val.erase(it->first); mem.erase(it); again = true; break;}
       }
    }
 };
@@ -238,40 +242,40 @@ struct Ctx
    Ideal ideal;
 };
 
-// resolve a location for reading; returns NULL if not resolvable
+// resolve a location for reading; a member slot is reached only through a counting reference
 static ItemRef * res_r(Ctx & c, const Loc & l)
 {
    if ((l.i < 0)||(l.i >= (int)c.stk.size())) return NULL;
    if (!l.mem) return &c.stk[l.i];
-   Item * q = c.stk[l.i]();
+   Item * q = c.stk[l.i].IsRefCounting() ? c.stk[l.i]() : NULL;
    if ((q == NULL)||(l.j < 0)||(l.j >= K)) return NULL;
    return &q->_m[l.j];
 }
-// resolve for writing the pointer v: member slots only of a private object, never a self-reference
+// resolve for writing the pointer v: member slots only of a private object, never a pointer to the object itself
 static ItemRef * res_w(Ctx & c, const Loc & l, const Item * v)
 {
    if ((l.i < 0)||(l.i >= (int)c.stk.size())) return NULL;
    if (!l.mem) return &c.stk[l.i];
-   Item * q = c.stk[l.i]();
+   Item * q = c.stk[l.i].IsRefCounting() ? c.stk[l.i]() : NULL;
    if ((q == NULL)||(l.j < 0)||(l.j >= K)) return NULL;
-   if (q->GetRefCount() != 1) return NULL;    // == stk[i].IsRefPrivate()
+   if (!c.stk[l.i].IsRefPrivate()) return NULL;
    if (v == q) return NULL;
    return &q->_m[l.j];
 }
-// the same two on the ideal graph: returns pointer to the int slot
-static int * ires_r(Ideal & d, const Loc & l)
+// the same two on the ideal graph
+static IRef * ires_r(Ideal & d, const Loc & l)
 {
    if ((l.i < 0)||(l.i >= (int)d.stk.size())) return NULL;
    if (!l.mem) return &d.stk[l.i];
-   const int q = d.stk[l.i];
+   const int q = d.stk[l.i].c ? d.stk[l.i].id : -1;
    if ((q < 0)||(l.j < 0)||(l.j >= K)) return NULL;
    return &d.mem[q][l.j];
 }
-static int * ires_w(Ideal & d, const Loc & l, int v)
+static IRef * ires_w(Ideal & d, const Loc & l, int v)
 {
    if ((l.i < 0)||(l.i >= (int)d.stk.size())) return NULL;
    if (!l.mem) return &d.stk[l.i];
-   const int q = d.stk[l.i];
+   const int q = d.stk[l.i].c ? d.stk[l.i].id : -1;
    if ((q < 0)||(l.j < 0)||(l.j >= K)) return NULL;
    if (d.count(q) != 1) return NULL;
    if (v == q) return NULL;
@@ -281,6 +285,15 @@ static int * ires_w(Ideal & d, const Loc & l, int v)
 static bool members_null(const Item * it) {for (int j=0; j<K; j++) if (it->_m[j]() != NULL) return false; return true;}
 
 static const char * opt(int v, char * buf) {if (v < 0) {strcpy(buf, (v == -1) ? "_" : "?");} else sprintf(buf, "%d", v); return buf;}
+static std::string refs(const ItemRef & r)
+{
+   char b[32];
+   if (r() == NULL) return "_";
+   std::string s = opt(id_of(r()), b);
+   if (!r.IsRefCounting()) s += "~";
+   return s;
+}
+static bool same(const ItemRef & r, const IRef & i) {return (r() == NULL) ? (i.id < 0) : ((id_of(r()) == i.id)&&(r.IsRefCounting() == i.c));}
 
 static void dump(std::ostringstream & o, Ctx & c, std::ostringstream & orc, int k, size_t opn)
 {
@@ -303,30 +316,30 @@ static void dump(std::ostringstream & o, Ctx & c, std::ostringstream & orc, int 
    for (size_t id=0; id<g_objs.size(); id++)
    {
       const Info & inf = g_objs[id];
-      if (inf.dead) {dead++; if (c.ideal.mem.count((int)id)) orc << k << " ORACLE FAIL object " << id << " destroyed while references to it exist (op#" << opn << ")\n"; continue;}
+      if (inf.dead) {dead++; if (c.ideal.mem.count((int)id)) orc << k << " ORACLE FAIL object " << id << " destroyed while counting references to it exist (op#" << opn << ")\n"; continue;}
       const Item * it = inf.addr;
       const bool isfree = inf.pooled && (freeids.count((int)id) > 0);
       o << id << (isfree ? "P" : "L") << it->GetRefCount() << "." << it->_val << "[";
-      for (int j=0; j<K; j++) {if (j) o << ","; o << opt(id_of(it->_m[j]()), b);}
+      for (int j=0; j<K; j++) {if (j) o << ","; o << refs(it->_m[j]);}
       o << "]b" << inf.births << "d" << inf.deaths << " ";
       // ---- the property, on this object
       const bool ilive = (c.ideal.mem.count((int)id) > 0);
       if (isfree)
       {
-         if (ilive) orc << k << " ORACLE FAIL object " << id << " returned to its pool while references to it exist (op#" << opn << ")\n";
+         if (ilive) orc << k << " ORACLE FAIL object " << id << " returned to its pool while counting references to it exist (op#" << opn << ")\n";
          if ((it->GetRefCount() != 0)||(it->_val != 0)||(!members_null(it))||(it->GetManager() != NULL))
             orc << k << " ORACLE FAIL pooled object " << id << " is not in the freshly-constructed state (op#" << opn << ")\n";
          if (inf.births != inf.deaths) orc << k << " ORACLE FAIL object " << id << " released " << inf.deaths << " times for " << inf.births << " obtains (op#" << opn << ")\n";
       }
       else
       {
-         if (!ilive) orc << k << " ORACLE FAIL object " << id << " not released although no reference to it is left (op#" << opn << ")\n";
-         else if ((int) it->GetRefCount() != c.ideal.count((int)id)) orc << k << " ORACLE FAIL object " << id << " count " << it->GetRefCount() << " != number of references " << c.ideal.count((int)id) << " (op#" << opn << ")\n";
+         if (!ilive) orc << k << " ORACLE FAIL object " << id << " not released although no counting reference to it is left (op#" << opn << ")\n";
+         else if ((int) it->GetRefCount() != c.ideal.count((int)id)) orc << k << " ORACLE FAIL object " << id << " count " << it->GetRefCount() << " != number of counting references " << c.ideal.count((int)id) << " (op#" << opn << ")\n";
          if (inf.births != inf.deaths+1) orc << k << " ORACLE FAIL object " << id << " released " << inf.deaths << " times for " << inf.births << " obtains while in use (op#" << opn << ")\n";
          if (ilive)
          {
-            const std::vector<int> & im = c.ideal.mem[(int)id];
-            for (int j=0; j<K; j++) if (id_of(it->_m[j]()) != im[j]) orc << k << " ORACLE FAIL object " << id << " member " << j << " differs from the ideal graph (op#" << opn << ")\n";
+            const std::vector<IRef> & im = c.ideal.mem[(int)id];
+            for (int j=0; j<K; j++) if (!same(it->_m[j], im[j])) orc << k << " ORACLE FAIL object " << id << " member " << j << " differs from the ideal graph (op#" << opn << ")\n";
             if (it->_val != c.ideal.val[(int)id]) orc << k << " ORACLE FAIL object " << id << " payload differs (op#" << opn << ")\n";
          }
       }
@@ -335,8 +348,8 @@ static void dump(std::ostringstream & o, Ctx & c, std::ostringstream & orc, int 
    for (size_t i=0; i<c.stk.size(); i++)
    {
       if (i) o << ",";
-      o << opt(id_of(c.stk[i]()), b);
-      if (id_of(c.stk[i]()) != c.ideal.stk[i]) orc << k << " ORACLE FAIL stack slot " << i << " differs from the ideal graph (op#" << opn << ")\n";
+      o << refs(c.stk[i]);
+      if (!same(c.stk[i], c.ideal.stk[i])) orc << k << " ORACLE FAIL stack slot " << i << " differs from the ideal graph (op#" << opn << ")\n";
    }
    o << ") " << c.pool->Cur() << "/" << c.pool->Max() << "/" << g_nextsid << "{";
    for (size_t s=0; s<slabs.size(); s++)
@@ -354,8 +367,8 @@ static void dump(std::ostringstream & o, Ctx & c, std::ostringstream & orc, int 
 static void set_new(Ctx & c, int i, Item * it, int id)
 {
    c.stk[i].SetRef(it);
-   c.ideal.stk[i] = id;
-   c.ideal.mem[id] = std::vector<int>(K, -1);
+   c.ideal.stk[i] = IRef(id, true);
+   c.ideal.mem[id] = std::vector<IRef>(K);
    c.ideal.val[id] = 0;
 }
 
@@ -365,7 +378,6 @@ static const char * do_op(Ctx & c, const std::string & opstr, std::ostringstream
    std::vector<std::string> a = split(opstr, ':');
    const std::string & o = a[0];
    Ideal & d = c.ideal;
-   const char * ret = "ok";
    if ((o == "nh")||(o == "np"))
    {
       const int i = atoi(a[1].c_str());
@@ -382,62 +394,72 @@ static const char * do_op(Ctx & c, const std::string & opstr, std::ostringstream
          Item * it = c.pool->Obtain();
          const bool nw = c.pool->ScanNewSlabs();
          const int id = id_of(it);
-         if (id < 0) {orc << k << " ORACLE FAIL ObtainObject returned an object of no known slab (op#" << opn << ")\n"; return "ok";}
-         if (d.mem.count(id)) orc << k << " ORACLE FAIL ObtainObject returned object " << id << " which is still referenced (op#" << opn << ")\n";
+         if ((id < 0)||(g_objs[id].dead)) {orc << k << " ORACLE FAIL ObtainObject returned an object of no known slab (op#" << opn << ")\n"; return "ok";}
+         if (d.mem.count(id)) orc << k << " ORACLE FAIL ObtainObject returned object " << id << " which is still in use (op#" << opn << ")\n";
          if ((it->GetRefCount() != 0)||(it->_val != 0)||(!members_null(it))) orc << k << " ORACLE FAIL obtained object " << id << " is not in the freshly-constructed state (op#" << opn << ")\n";
          g_objs[id].births++;
          (*g_ev) << "O" << id << (nw ? "+" : "") << " ";
          set_new(c, i, it, id);
       }
    }
-   else if ((o == "as")||(o == "cc"))
+   else if ((o == "as")||(o == "cc")||(o == "al"))
    {
       const Loc ld = parse_loc(a[1]), ls = parse_loc(a[2]);
-      ItemRef * ps = res_r(c, ls);       int * ips = ires_r(d, ls);
+      ItemRef * ps = res_r(c, ls);       IRef * ips = ires_r(d, ls);
+      if ((ps != NULL) != (ips != NULL)) orc << k << " ORACLE FAIL resolution differs from the ideal graph (op#" << opn << ")\n";
       ItemRef * pd = ps ? res_w(c, ld, (*ps)()) : NULL;
-      int * ipd = ips ? ires_w(d, ld, *ips) : NULL;
+      IRef * ipd = ips ? ires_w(d, ld, ips->id) : NULL;
       if ((pd != NULL) != (ipd != NULL)) orc << k << " ORACLE FAIL IsRefPrivate()/resolution differs from the ideal graph (op#" << opn << ")\n";
       if ((ps == NULL)||(pd == NULL)) return "skip";
-      if (ipd) *ipd = *ips;
+      if (ipd)
+      {
+         const IRef before = *ipd;
+         IRef nv = *ips; if (o == "al") nv.c = false; if (nv.id < 0) nv = IRef();
+         *ipd = nv;
+         // stop-counting conversion on the same item: by contract the object is not released even at count zero
+         if ((o != "cc")&&(before.id >= 0)&&(before.id == nv.id)&&(before.c)&&(!nv.c)&&(d.count(nv.id) == 0)) d.orphans.insert(nv.id);
+      }
       if (o == "as") *pd = *ps;
-                else *pd = CastAwayConstFromRef(*ps);
+      else if (o == "al") pd->SetRef((*ps)(), false);
+      else *pd = CastAwayConstFromRef(*ps);
    }
    else if (o == "rs")
    {
       const Loc l = parse_loc(a[1]);
-      ItemRef * pd = res_w(c, l, NULL);  int * ipd = ires_w(d, l, -1);
+      ItemRef * pd = res_w(c, l, NULL);  IRef * ipd = ires_w(d, l, -1);
       if ((pd != NULL) != (ipd != NULL)) orc << k << " ORACLE FAIL IsRefPrivate()/resolution differs from the ideal graph (op#" << opn << ")\n";
       if (pd == NULL) return "skip";
-      if (ipd) *ipd = -1;
+      if (ipd) *ipd = IRef();
       pd->Reset();
    }
    else if (o == "sw")
    {
       const Loc la = parse_loc(a[1]), lb = parse_loc(a[2]);
       ItemRef * ra = res_r(c, la);  ItemRef * rb = res_r(c, lb);
-      int * ira = ires_r(d, la);    int * irb = ires_r(d, lb);
+      IRef * ira = ires_r(d, la);   IRef * irb = ires_r(d, lb);
       if ((ra == NULL)||(rb == NULL)) return "skip";
       ItemRef * wa = res_w(c, la, (*rb)()); ItemRef * wb = res_w(c, lb, (*ra)());
-      int * iwa = (ira && irb) ? ires_w(d, la, *irb) : NULL; int * iwb = (ira && irb) ? ires_w(d, lb, *ira) : NULL;
+      IRef * iwa = (ira && irb) ? ires_w(d, la, irb->id) : NULL; IRef * iwb = (ira && irb) ? ires_w(d, lb, ira->id) : NULL;
       if (((wa != NULL)&&(wb != NULL)) != ((iwa != NULL)&&(iwb != NULL))) orc << k << " ORACLE FAIL IsRefPrivate()/resolution differs from the ideal graph (op#" << opn << ")\n";
       if ((wa == NULL)||(wb == NULL)) return "skip";
       if (wa != wb)
       {
          wa->SwapContents(*wb);
-         if (iwa && iwb) {const int t = *iwa; *iwa = *iwb; *iwb = t;}
+         if (iwa && iwb) {const IRef t = *iwa; *iwa = *iwb; *iwb = t;}
       }
    }
    else if (o == "sv")
    {
       const int i = atoi(a[1].c_str()), v = atoi(a[2].c_str());
-      Item * q = ((i >= 0)&&(i < (int)c.stk.size())) ? c.stk[i]() : NULL;
-      if ((q == NULL)||(q->GetRefCount() != 1)) return "skip";
+      if ((i < 0)||(i >= (int)c.stk.size())) return "skip";
+      Item * q = c.stk[i].IsRefCounting() ? c.stk[i]() : NULL;
+      if ((q == NULL)||(!c.stk[i].IsRefPrivate())) return "skip";
       q->_val = v;
-      if (d.stk[i] >= 0) d.val[d.stk[i]] = v;
+      if (d.stk[i].id >= 0) d.val[d.stk[i].id] = v;
    }
    else if (o == "dr") c.pool->Drain();
    else {fprintf(stderr, "bad op [%s]\n", opstr.c_str()); exit(2);}
-   return ret;
+   return "ok";
 }
 
 static void run_single(int k, const std::string & hdr, const std::string & body)
@@ -450,7 +472,7 @@ static void run_single(int k, const std::string & hdr, const std::string & body)
       Ctx c;
       c.pool = make_pool(N, (uint32) mx);
       c.stk.resize(S);
-      c.ideal.stk.assign(S, -1);
+      c.ideal.stk.assign(S, IRef());
       std::vector<std::string> ops = split(body, ';');
       size_t opn = 0;
       for (size_t n=0; n<ops.size(); n++)
@@ -460,8 +482,7 @@ static void run_single(int k, const std::string & hdr, const std::string & body)
          g_ev = &ev;
          const char * r = do_op(c, ops[n], orc, k, opn);
          g_ev = NULL;
-         std::set<int> released;
-         c.ideal.collect(released);
+         c.ideal.collect();
          o << r << " " << ev.str() << "| ";
          dump(o, c, orc, k, opn);
          o << ";";
@@ -469,14 +490,24 @@ static void run_single(int k, const std::string & hdr, const std::string & body)
          opn++;
          if (!orc.str().empty()) break;
       }
-      // end of case: drop every reference; everything must have been released exactly once
-      for (size_t i=0; i<c.stk.size(); i++) c.stk[i].Reset();
-      for (size_t id=0; id<g_objs.size(); id++)
-         if ((!g_objs[id].pooled)&&(!g_objs[id].dead)) orc << k << " ORACLE FAIL heap object " << id << " never destroyed after its last reference went away\n";
-      if (c.pool->AnyInUse()) orc << k << " ORACLE FAIL pooled object still in use after the last reference went away\n";
-      c.pool->Sanity();
-      c.stk.clear();
-      if (orc.str().empty()) delete c.pool;   // ~ObjectPool MCRASHes if a slab is in use; already reported above in that case
+      // end of case: drop every reference (adopting the objects orphaned by stop-counting conversions first);
+      // everything must then have been released exactly once
+      if (orc.str().empty())
+      {
+         while(!c.ideal.orphans.empty())
+         {
+            const int id = *c.ideal.orphans.begin();
+            c.ideal.orphans.erase(c.ideal.orphans.begin());
+            {ItemRef adopt(const_cast<Item *>(g_objs[id].addr));}
+         }
+         for (size_t i=0; i<c.stk.size(); i++) c.stk[i].Reset();
+         for (size_t id=0; id<g_objs.size(); id++)
+            if ((!g_objs[id].pooled)&&(!g_objs[id].dead)) orc << k << " ORACLE FAIL heap object " << id << " never destroyed after its last counting reference went away\n";
+         if (c.pool->AnyInUse()) orc << k << " ORACLE FAIL pooled object still in use after the last counting reference went away\n";
+         c.pool->Sanity();
+      }
+      if (orc.str().empty()) {c.stk.clear(); delete c.pool;}   // ~ObjectPool MCRASHes if a slab is in use
+      else {for (size_t i=0; i<c.stk.size(); i++) c.stk[i].Neutralize();}   // after a failure: leak rather than crash
    }
    printf("%d %s\n", k, o.str().c_str());
    if (!orc.str().empty())
@@ -512,12 +543,12 @@ static void mt_op(std::vector<ItemRef> & stk, PoolI * pool, const std::string & 
                    else {Item * it = pool->Obtain(); if (it) {g_mt_obt++; c.stk[i].SetRef(it);}}
       }
    }
-   else if ((o == "as")||(o == "cc"))
+   else if ((o == "as")||(o == "cc")||(o == "al"))
    {
       const Loc ld = parse_loc(a[1]), ls = parse_loc(a[2]);
       ItemRef * ps = res_r(c, ls);
       ItemRef * pd = ps ? res_w(c, ld, (*ps)()) : NULL;
-      if (ps && pd) {if (o == "as") *pd = *ps; else *pd = CastAwayConstFromRef(*ps);}
+      if (ps && pd) {if (o == "as") *pd = *ps; else if (o == "al") pd->SetRef((*ps)(), false); else *pd = CastAwayConstFromRef(*ps);}
    }
    else if (o == "rs") {ItemRef * pd = res_w(c, parse_loc(a[1]), NULL); if (pd) pd->Reset();}
    else if (o == "sw")
@@ -533,8 +564,8 @@ static void mt_op(std::vector<ItemRef> & stk, PoolI * pool, const std::string & 
    else if (o == "sv")
    {
       const int i = atoi(a[1].c_str());
-      Item * q = ((i >= 0)&&(i < (int)c.stk.size())) ? c.stk[i]() : NULL;
-      if (q && (q->GetRefCount() == 1)) q->_val = atoi(a[2].c_str());
+      Item * q = ((i >= 0)&&(i < (int)c.stk.size())&&(c.stk[i].IsRefCounting())) ? c.stk[i]() : NULL;
+      if (q && c.stk[i].IsRefPrivate()) q->_val = atoi(a[2].c_str());
    }
    else if (o == "dr") pool->Drain();
    c.stk.swap(stk);
